@@ -117,6 +117,11 @@ def gen(tier, rng, boost=1):
     # the tuple inside an object, followed by another field: an array scope closed wherever the tuple stops
     from .scopegen import gen_tupobj_ops
     ops += gen_tupobj_ops(tier, rng, boost)
+    # the text archives: values of another kind / out of range / fractional text for integer targets in XML and JSON documents under
+    # the Skip policies (C08's generator): the skipped value must leave its target untouched and the neighbours must load
+    from . import C08 as J
+    jx = J.gen_c04_xml(rng, tier, boost)[: (400 if tier == "quick" else 20000)] + J.gen_c04_json(rng, tier, boost)[: (200 if tier == "quick" else 10000)]
+    ops += [o for o in jx if o.split(" ")[3] != "tt"]          # at least one of the two policies is Skip
     return ops
 
 
@@ -153,3 +158,11 @@ def tuple_gen(tier, rng, boost=1):
             for mis in ("skip", "throw"):
                 ops.append(f"mp.tuple {src} {mis} {d}")
     return ops
+
+
+def adjust_verdict(op, impl, verdict):
+    """json./xml. ops are borrowed from C08 (numbers of another kind / out of range in every position, Skip policies): its recorded
+    adapter findings are C08's business; here the question is only whether a skipped value left its target and neighbours alone"""
+    if op.startswith(("json.", "xml.")) and verdict.startswith("known:"):
+        return "ok"
+    return verdict
